@@ -116,6 +116,11 @@ type FS struct {
 	CrashAt  int
 	CrashCut int
 	Fired    map[string]int
+	// WriteFaultIn > 0 arms WriteFault for the WriteFaultIn-th write or sync op from now on (other op
+	// kinds are not counted); it disarms itself when it fires. Workloads that want "the disk fails
+	// somewhere inside the next save" use it instead of absolute op indices.
+	WriteFaultIn int
+	WriteFault   Fault
 	// Handles not closed (leak probe).
 	open int
 }
@@ -149,12 +154,37 @@ func (f *FS) gate(op Op) (idx int, ft *Fault, crash bool) {
 	if f.CrashAt == idx {
 		return idx, nil, true
 	}
+	if f.WriteFaultIn > 0 && (op.Kind == OpWrite || op.Kind == OpSync) {
+		f.WriteFaultIn--
+		if f.WriteFaultIn == 0 {
+			flt := f.WriteFault
+			f.Ops[idx].Err = true
+			f.Fired[op.Kind.String()+"_err"]++
+			return idx, &flt, false
+		}
+	}
 	if flt, ok := f.Faults[idx]; ok {
 		f.Ops[idx].Err = true
 		f.Fired[op.Kind.String()+"_err"]++
 		return idx, &flt, false
 	}
 	return idx, nil, false
+}
+
+// ArmWriteFault arms a fault for the n-th upcoming write/sync op (n >= 1); DisarmWriteFault reports whether
+// it is still pending and removes it.
+func (f *FS) ArmWriteFault(n int, flt Fault) {
+	f.mu.Lock()
+	f.WriteFaultIn, f.WriteFault = n, flt
+	f.mu.Unlock()
+}
+
+func (f *FS) DisarmWriteFault() bool {
+	f.mu.Lock()
+	defer f.mu.Unlock()
+	pending := f.WriteFaultIn > 0
+	f.WriteFaultIn = 0
+	return pending
 }
 
 func (f *FS) NumOps() int {
